@@ -452,7 +452,11 @@ def c16_cases(tier, seed):
         k = rng.randint(0, 5)
         simple = _saved_format_only(cfg)
         ops = [{"op": "simulate", "light": True},                      # 1 reference
-               {"op": "rebuild", "plain": True}, {"op": "snapshot"}, {"op": "saveload"}]   # never simulated
+               {"op": "rebuild", "plain": True}, {"op": "snapshot"},
+               # the structural graph before and after the round trip (run 4 = reference)
+               {"op": "graph", "workers": True, "facilities": True},
+               {"op": "saveload"},                                                         # never simulated
+               _cmp({"op": "graph", "workers": True, "facilities": True}, 4, "C16", "graph")]
         ops += [_cmp({"op": "simulate", "light": True}, 1, "C16", "lg")] if simple else [{"op": "simulate", "light": True}]
         ops += [{"op": "saveload"}]                                                        # finished forward
         ops += [{"op": "rebuild", "plain": True}, {"op": "simulate", "opts": {"maxTime": k}, "light": True},
